@@ -108,6 +108,11 @@ def units():
               "kind": "proof(plain harness; rate, channels, frames, encoding, byte order symbolic; loops over literal strings unwound completely)",
               "trusted": ["E1 recording model of psf_binheader_writef (byte count from the format string; recognises the sample-rate and dimension elements)",
                           "the date text of the banner is a short string", "the reader's accepted element tags are named by their constants (mat5_read_header)"]})
+    U.append({"name": "sds.sds_write_header", "props": ["C11", "C07"], "harness": "sds_hdr.harness.c", "entry": "h_sds_write_header", "enforce": "sds_write_header",
+              "function": "sds.c:sds_write_header", "timeout": 600, "cbmc_flags": ["--object-bits", "9"],
+              "replace": ["psf_ftell", "psf_fseek", "psf_fwrite"],
+              "trusted": ["E1 model of psf_binheader_writef (advances the header cache index)", "packet_writer_c: effect of sds_{2,3,4}byte_write on position and counters (frame contract, not enforced)",
+                          "ghost file position driven by the psf_ftell / psf_fseek / psf_fwrite contracts"]})
     # WAV length bookkeeping (DFCC): header writer and tailer
     for bw in (0, 2, 3):
         for ch in (1, 2):
